@@ -10,14 +10,14 @@ from ref import rfc9171, bpsec_cose
 
 ID = 'C16'
 LEVEL = 'fault_enumeration'
-RULE = ('per case one confidentiality configuration (COSE_Encrypt0 with A128GCM or A256GCM and a direct key, IV from the plan; plaintexts of '
+RULE = ('per case one confidentiality configuration (COSE_Encrypt0 with A128GCM or A256GCM and a direct key, IV from the plan; one target (payload) or two targets (payload + extension block) per block; plaintexts of '
         'length 0, 1, 7, 8, 9, 40, 300; acceptance on or off) applied by the real source node, or a foreign source built by '
         'ref/bpsec_cose.py; on the wire the target data must be ciphertext of length plaintext+16 that the independent AES-GCM / AAD '
         'construction decrypts to the plaintext; alterations as in C03 (every single-bit flip in a drawn window with CRC fix-up, field '
         'rewrites of primary fields, target metadata, security source, scope, IV, ciphertext, tag; wrong / missing key). One evaluation = '
         'one altered reception; distinct = (configuration digest, alteration).')
 COMPONENTS = bc.COMPONENTS
-PROBES = ('class.covered', 'class.other', 'kind.enc0', 'kind.foreign', 'alt.bitflip', 'alt.field', 'alt.wrong-key', 'alt.missing-key', 'cov.primary',
+PROBES = ('class.covered', 'class.other', 'kind.enc0', 'kind.two_targets', 'kind.foreign', 'alt.bitflip', 'alt.field', 'alt.wrong-key', 'alt.missing-key', 'cov.primary',
           'cov.target-btsd', 'cov.target-meta', 'cov.source', 'cov.scope', 'cov.iv', 'wire.no_plaintext_window', 'plain.empty', 'accept.on', 'accept.off')
 ASSUMPTIONS = ['plaintext recovery is checked with acceptance enabled; with acceptance off a verified bundle is delivered still encrypted, which the statement allows',
                'COSE_Encrypt with wrapped content keys needs the pycose fork pinned in pyproject.toml and is not exercised (see C03)']
@@ -30,7 +30,8 @@ def gen(ch, tier):
     return dict(scenario='bpsec_bcb', kind=kind, plen=ch.choice('plen', (0, 1, 7, 8, 9, 40, 300)), others=ch.weighted('others', (2, 3, 1)),
                 pri_crc=ch.choice('pc', (0, 0, 2, 1)), blk_crc=ch.choice('bc', (0, 0, 1, 2)), window=ch.pick('window', 1 << 16),
                 wsize=24 if tier == 'quick' else 96, accept=ch.coin('accept', 2, 3), dst_key=ch.choice('dstkey', ('right', 'right', 'right', 'wrong', 'missing')),
-                falg=ch.choice('falg', (1, 3)), scope=ch.choice('scope', ([[0, 1], [-1, 1]], [[0, 1], [-1, 1], [-2, 1]], [[-1, 1]])), tgt_ext=False, fixup=True)
+                falg=ch.choice('falg', (1, 3)), scope=ch.choice('scope', ([[0, 1], [-1, 1]], [[0, 1], [-1, 1], [-2, 1]], [[-1, 1]])),
+                tgt_ext=(kind != 'foreign' and ch.coin('tgtext', 1, 3)), fixup=True)
 
 
 def _kid(plan):
@@ -46,8 +47,12 @@ def _iv(seqno):
 def _policy(plan):
     if plan['kind'] == 'foreign':
         return []
-    ivs = [_iv(C03.seq_code(ix)).hex() for ix in range(0, 600)]
-    return [dict(src='.*', dst='.*', targets=[1], ops=[dict(type='bcb', kid=_kid(plan), ivs=ivs)])]
+    ivs = []
+    for ix in range(0, 600):
+        ivs.append(_iv(C03.seq_code(ix)).hex())
+        if plan.get('tgt_ext'):
+            ivs.append((b'XV' + _iv(C03.seq_code(ix))[2:]).hex())
+    return [dict(src='.*', dst='.*', targets=[1, 192] if plan.get('tgt_ext') else [1], ops=[dict(type='bcb', kid=_kid(plan), ivs=ivs)])]
 
 
 def _dst_keys(plan):
@@ -67,6 +72,9 @@ def make_copy(plan, har, index):
     seqno = C03.seq_code(index)
     plain = plaintext(plan, index)
     ext = [dict(type=193, flags=ix & 1, crc_type=plan['blk_crc'], btsd=b'\x44OTH' + bytes([0x30 + ix])) for ix in range(plan['others'])]
+    if plan.get('tgt_ext'):
+        # a second target of the same confidentiality block (block number 2, after the payload in target order)
+        ext.insert(0, dict(type=192, flags=0, crc_type=plan['blk_crc'], btsd=b'\x4cSECOND-TARGET'))
     if plan['kind'] != 'foreign':
         return sc.source_bundle(har, seqno, plain, ext, pri_crc=plan['pri_crc'], pay_crc=plan['blk_crc'])
     pri = dict(flags=0, crc_type=plan['pri_crc'], destination='dtn://d/app', source='dtn://s/', report_to='dtn:none',
@@ -186,9 +194,11 @@ def field_alterations(orig):
 
 def _drive(run, plan, har):
     stats = run.stats
-    cfg = bc.digest({key: plan[key] for key in ('kind', 'plen', 'others', 'pri_crc', 'blk_crc', 'dst_key', 'accept', 'falg', 'scope')})
+    cfg = bc.digest({key: plan[key] for key in ('kind', 'plen', 'others', 'pri_crc', 'blk_crc', 'dst_key', 'accept', 'falg', 'scope', 'tgt_ext')})
     stats['kind.' + ('foreign' if plan['kind'] == 'foreign' else 'enc0')] = 1
     stats['accept.' + ('on' if plan['accept'] else 'off')] = 1
+    if plan.get('tgt_ext'):
+        stats['kind.two_targets'] = 1
     if plan['plen'] == 0:
         stats['plain.empty'] = 1
     index = 0
